@@ -12,7 +12,10 @@ META = {
                   "archive is built with the library and altered at EVERY byte offset (flip bit 0 / bit 7 / set 00 / set FF, 4-byte zeroing, sector swaps); "
                   "after each alteration every detector of the real code is run (Archive::open, read_file, get_info md5_status/signature_status, storm-ffi "
                   "SFileVerifyFile) and Trace_Integrity decides: intact => all pass; altered protected region => some detector fails or all content tokens are "
-                  "the originals. Signatures: generate_weak_signature over byte strings, every bit of data and signature flipped.",
+                  "the originals. Signatures: generate_weak_signature over byte strings, every bit of data and signature flipped; the signature area at every "
+                  "alignment relative to the 64 KiB digest unit (all 71 straddling placements) with the 16 bytes before and 128 bytes after it flipped; signed archives "
+                  "> 64 KiB whose (signature) entry straddles the unit boundary; >= 2000 distinct signed messages verified intact; version-4 archives with 1022..2049 "
+                  "files verified intact.",
     "level_note": "Single contiguous alterations only (one byte, 4 bytes, or two sectors swapped). Archives are 1.5-3 KB with one single-unit and one 3-sector file; "
                   "stored (uncompressed) multi-sector files are not used because they do not read back at all (F-C01-a). Signed archives: V1 without sector CRCs "
                   "(signature patched in by the harness with generate_weak_signature). A digest of the v4 header counts as a detector only if it verified on the "
@@ -54,6 +57,7 @@ def run(ctx, cases_override=None):
     res = ctx.validate("Trace_Integrity", trace, timeout=900)
     # evidence: measured numbers only
     alterations, archives, matrix, samples, sigflips = 0, set(), {}, [], 0
+    sigmsgs, bigintact = 0, 0
     with open(trace) as f:
         for line in f:
             r = json.loads(line)
@@ -66,19 +70,29 @@ def run(ctx, cases_override=None):
                     samples.append(r)
             elif r["ev"] == "SigFlip":
                 sigflips += r["n"]
+            elif r["ev"] == "SigIntact":
+                sigmsgs += r.get("n", 1)
+            elif r["ev"] == "Intact" and ":intact-" in r["case"]:
+                bigintact += 1
             elif r["ev"] in ("Intact", "Regions", "SigIntact") and len(samples) < 10:
                 samples.append(r)
     cov = {
-        "evaluations": alterations + sigflips,
+        "evaluations": alterations + sigflips + sigmsgs + bigintact,
         "distinct_nontrivial": alterations + sigflips,
         "rule": "one evaluation = one alteration of a real archive (distinct (archive, offset, mutation kind) by construction) followed by a run of every "
-                "detector, or one bit flip of a signed byte string followed by verify_weak_signature_stormlib; all are non-trivial (each changes at least one byte)",
+                "detector, or one bit flip of a signed byte string followed by verify_weak_signature_stormlib (non-trivial: each changes at least one byte); "
+                "evaluations additionally counts intact-only checks: signed messages that must verify (the ~1/256 class whose RSA value has a zero top byte is "
+                "hit with probability 1-(255/256)^n, see zero_top_byte_miss_probability) and version-4 archives with 1022..2049 files (tables around and above "
+                "the 0x4000-byte raw chunk) whose digests must all verify",
         "samples": samples,
         "traces_validated_against_impl": res["traces"],
         "events": res["events"],
         "archives": len(archives),
         "alterations": alterations,
         "signature_bit_flips": sigflips,
+        "signed_messages_verified_intact": sigmsgs,
+        "intact_only_large_table_archives": bigintact,
+        "zero_top_byte_miss_probability": "P(no RSA value with a zero top byte among n signed messages) = (255/256)^n; n = %d -> %.1e" % (sigmsgs, (255.0 / 256.0) ** max(sigmsgs, 1)),
         "alterations_by_region_and_kind": matrix,
         "configurations_generated_by_tlc": ncases,
         "exhaustive": False,
